@@ -114,7 +114,8 @@ def _load_common(ctx, d, spec, pre):
     return total, since
 
 
-def body_ddm_step(ctx, pre, r0):
+def make_ddm_state(ctx, pre, r0):
+    """a DDM in an arbitrary invariant state, and its specification in the same state"""
     from menelaus.concept_drift import DDM
 
     nth, ws, ds = ctx.int("n_threshold"), ctx.real("warning_scale"), ctx.real("drift_scale")
@@ -135,10 +136,15 @@ def body_ddm_step(ctx, pre, r0):
         first = drift_idx
     d._retraining_recs = [first, drift_idx]
     spec.recs.first, spec.recs.recs = first, [first, drift_idx]
+    return d, spec
+
+
+def body_ddm_step(ctx, pre, r0):
+    d, spec = make_ddm_state(ctx, pre, r0)
     _one_step(ctx, d, spec, pre, lambda: spec.recs.recs)
 
 
-def body_eddm_step(ctx, pre, r0):
+def make_eddm_state(ctx, pre, r0):
     from menelaus.concept_drift import EDDM
 
     nth, wt, dt = ctx.int("n_threshold"), ctx.real("warning_thresh"), ctx.real("drift_thresh")
@@ -161,6 +167,11 @@ def body_eddm_step(ctx, pre, r0):
         first = drift_idx
     d._retraining_recs = [first, drift_idx]
     spec.recs.first, spec.recs.recs = first, [first, drift_idx]
+    return d, spec
+
+
+def body_eddm_step(ctx, pre, r0):
+    d, spec = make_eddm_state(ctx, pre, r0)
     _one_step(ctx, d, spec, pre, lambda: spec.recs.recs)
 
 
@@ -175,7 +186,7 @@ def _one_step(ctx, d, spec, pre, spec_recs):
     ctx.prove(land(ctx.eq(d.total_samples, spec.total), ctx.eq(d.samples_since_reset, spec.n)), "counters-equal-spec")
 
 
-def body_stepd_step(ctx, pre, L):
+def make_stepd_state(ctx, pre, L):
     from menelaus.concept_drift import stepd as M
 
     w, aw, ad = ctx.int("window_size"), ctx.real("alpha_warning"), ctx.real("alpha_drift")
@@ -205,6 +216,11 @@ def body_stepd_step(ctx, pre, L):
         spec.run_start = start
     d._retraining_recs = np.array(recs, dtype=object)
     spec.recs = list(recs)
+    return d, spec, M, fake
+
+
+def body_stepd_step(ctx, pre, L):
+    d, spec, M, fake = make_stepd_state(ctx, pre, L)
     with rebind(M, scipy=fake):
         _one_step(ctx, d, spec, pre, lambda: spec.recs)
 
